@@ -463,9 +463,16 @@ class Recorder:
         try:
             st2 = State.from_numpy(st.numpy_flat(), st.shape(), st.host_num_map)
             rd = st2.get_readable()
+            # the live state read directly (what env.render_state does): same content, and reading changes nothing
+            live_before = sha(st.tensor)
+            rows_before = rows_of(st.tensor)
+            rd_live = st.get_readable()
+            live_equal = bool([self._readable_host(d, cs) for d in rd_live] == [self._readable_host(d, cs) for d in rd])
+            live_unchanged = bool(live_before == sha(st.tensor))
         except Exception as exc:   # noqa
             return self.raised(eid, "State.from_numpy/get_readable", exc, "C09", "from_numpy_roundtrip")
-        return self.emit(dict(ev="readable", env=eid, what="state", rows=rows_of(st.tensor),
+        return self.emit(dict(ev="readable", env=eid, what="state", rows=rows_before,
+                              live_equal=live_equal, live_unchanged=live_unchanged,
                               readable=[self._readable_host(d, cs) for d in rd],
                               roundtrip_diff=diff_rows(st.tensor, st2.tensor),
                               shape_ok=bool(st2.tensor.shape == st.tensor.shape)))
@@ -477,11 +484,17 @@ class Recorder:
         try:
             o2 = Observation.from_numpy(np.asarray(obs_arr), env.current_state.shape())
             hosts, aux = o2.get_readable()
+            # the same content handed over in column-major memory order: the 1D form is still the row-major
+            # flattening of the 2D one
+            ref0 = np.asarray(obs_arr).reshape(self.nh + 1, -1)
+            o3 = Observation.from_numpy(np.asfortranarray(ref0), env.current_state.shape())
+            flat_any_order = bool(np.array_equal(np.asarray(o3.numpy_flat()), ref0.reshape(-1))
+                                  and np.array_equal(np.asarray(o3.numpy()), ref0))
         except Exception as exc:   # noqa
             return self.raised(eid, "Observation.from_numpy/get_readable", exc, "C09", "from_numpy_roundtrip")
         ref = np.asarray(obs_arr).reshape(self.nh + 1, -1)
         return self.emit(dict(ev="readable", env=eid, what="obs", rows=rows_of(ref[:self.nh]),
-                              aux=rows_of(ref[self.nh])[0],
+                              aux=rows_of(ref[self.nh])[0], flat_any_order=flat_any_order,
                               readable=[self._readable_host(d, cs) for d in hosts],
                               aux_readable=dict(success=bool(aux["Success"]), conn=bool(aux["Connection Error"]),
                                                 perm=bool(aux["Permission Error"]), undef=bool(aux["Undefined Error"])),
